@@ -18,7 +18,7 @@ Definition init_terminal (level : nat) : MS unit :=
                             end) |>).
 
 Definition empty_st : st :=
-  St ∅ ∅ ∅ 2%positive ∅ ∅ ∅ None false [] [] None.
+  St ∅ ∅ ∅ 2%positive ∅ ∅ ∅ None false [] [] None None.
 
 (** the manager right after [BDD()] *)
 Definition init : st := snd (init_terminal 0 empty_st).
@@ -131,6 +131,18 @@ Fixpoint next_free (fuel : nat) (m : gmap positive triple) (i : positive)
   | S f => if decide (is_Some (m !! i)) then next_free f m (Pos.succ i) else i
   end.
 
+(** [range(start, self.max_nodes)] contains [i] (for [start <= i]) *)
+Definition fits (mx : option positive) (i : positive) : bool :=
+  match mx with
+  | None => true
+  | Some n => bool_decide (i < n)%positive
+  end.
+
+(** The next free integer is computed BEFORE the node is written
+    ([min_free = self._next_free_int(u + 1)]): when there is none below
+    [max_nodes] the call raises [RuntimeError] with the tables unchanged.
+    (The least free integer [>= u + 1] of [_succ] is the least free integer
+    [>= u] of [_succ] with [u] inserted.) *)
 Definition find_or_add (i : nat) (v w : Z) : MS Z :=
   request_reordering ;;;
   s <- get ;;
@@ -148,6 +160,8 @@ Definition find_or_add (i : nat) (v w : Z) : MS Z :=
       let u := min_free s in
       assert (bool_decide (1 < u)%positive) ;;;
       assert (bool_decide (succ s !! u = None)) ;;;
+      (let succ' := <[u := t]> (succ s) in
+       ensure ERuntime (fits (max_nodes s) (next_free (S (size succ')) succ' u))) ;;;
       modify (fun s =>
         let succ' := <[u := t]> (succ s) in
         s <| pred ::= <[t := u]> |> <| succ := succ' |>
